@@ -1,4 +1,5 @@
 import Pdpy11.Model.Link
+import Pdpy11.Model.Poly
 import Pdpy11.Props.C09
 import Pdpy11.Props.C06
 /-
@@ -79,3 +80,388 @@ example : (decideBase (some (.value (toLin (.add (.num 0o1000) (.address 6))))))
 example : skipBytes 10 14 = .ok [0, 0, 0, 0] := by rfl
 
 end Pdpy11.Props.C12
+
+/-! ## `deferred.LinearPolynomial` — the symbolic arithmetic behind "the dependence cancels" -/
+
+namespace Pdpy11.Props.C12.LinPoly
+open Pdpy11.Model.Poly
+
+/-! ### `LinearPolynomial`: the symbolic arithmetic keeps the meaning -/
+
+theorem termSum_append (env : Var → Int) (a b : List (Var × Int)) :
+    termSum env (a ++ b) = termSum env a + termSum env b := by
+  induction a with
+  | nil => simp [termSum]
+  | cons hd tl ih => obtain ⟨v, c⟩ := hd; simp [termSum, ih]; omega
+
+theorem termSum_bump (env : Var → Int) (d : List (Var × Int)) (k : Var) (v : Int) :
+    termSum env (bump d k v) = termSum env d + v * env k := by
+  induction d with
+  | nil => simp [bump, termSum]
+  | cons hd tl ih =>
+    obtain ⟨k', v'⟩ := hd
+    unfold bump
+    split
+    · rename_i h; subst h; simp [termSum, Int.add_mul]; omega
+    · simp [termSum, ih]; omega
+
+theorem termSum_foldl_bump (env : Var → Int) (pairs d : List (Var × Int)) :
+    termSum env (pairs.foldl (fun d kv => bump d kv.1 kv.2) d) = termSum env d + termSum env pairs := by
+  induction pairs generalizing d with
+  | nil => simp [termSum]
+  | cons hd tl ih =>
+    obtain ⟨k, v⟩ := hd
+    simp only [List.foldl_cons, ih, termSum_bump, termSum]; omega
+
+theorem termSum_dropZero (env : Var → Int) (d : List (Var × Int)) :
+    termSum env (dropZero d) = termSum env d := by
+  induction d with
+  | nil => rfl
+  | cons hd tl ih =>
+    obtain ⟨k, v⟩ := hd
+    by_cases h : v = 0
+    · subst h
+      have : dropZero ((k, 0) :: tl) = dropZero tl := by simp [dropZero]
+      rw [this, ih]; simp [termSum]
+    · have : dropZero ((k, v) :: tl) = (k, v) :: dropZero tl := by simp [dropZero, h]
+      rw [this]; simp [termSum, ih]
+
+/-- the constructor merges duplicate variables and drops zero coefficients without changing
+what the polynomial means -/
+theorem eval_mk (env : Var → Int) (pairs : List (Var × Int)) (c : Int) :
+    evalP env (mk pairs c) = termSum env pairs + c := by
+  simp [evalP, mk, termSum_dropZero, build, termSum_foldl_bump, termSum]
+
+theorem eval_mkDict (env : Var → Int) (d : List (Var × Int)) (c : Int) :
+    evalP env (mkDict d c) = termSum env d + c := by
+  simp [evalP, mkDict, termSum_dropZero]
+
+theorem termSum_map_mul (env : Var → Int) (d : List (Var × Int)) (k : Int) :
+    termSum env (d.map (fun kv => (kv.1, kv.2 * k))) = termSum env d * k := by
+  induction d with
+  | nil => simp [termSum]
+  | cons hd tl ih =>
+    obtain ⟨v, a⟩ := hd
+    simp only [List.map_cons, termSum, ih, Int.add_mul]
+    rw [Int.mul_assoc, Int.mul_comm k, ← Int.mul_assoc]
+
+theorem termSum_map_neg (env : Var → Int) (d : List (Var × Int)) :
+    termSum env (d.map (fun kv => (kv.1, -kv.2))) = - termSum env d := by
+  induction d with
+  | nil => simp [termSum]
+  | cons hd tl ih =>
+    obtain ⟨v, a⟩ := hd
+    simp only [List.map_cons, termSum, ih, Int.neg_mul]; omega
+
+/-- `__add__`, `__mul__` by a known integer, `__neg__`: ring homomorphisms of the meaning -/
+theorem eval_add (env : Var → Int) (p q : P) : evalP env (add p q) = evalP env p + evalP env q := by
+  rw [add, eval_mk, termSum_append]; simp only [evalP]; omega
+
+theorem eval_addConst (env : Var → Int) (p : P) (k : Int) : evalP env (addConst p k) = evalP env p + k := by
+  rw [addConst, eval_mkDict]; simp only [evalP]; omega
+
+theorem eval_mulConst (env : Var → Int) (p : P) (k : Int) : evalP env (mulConst p k) = evalP env p * k := by
+  rw [mulConst, eval_mkDict, termSum_map_mul]; simp only [evalP, Int.add_mul]
+
+theorem eval_neg (env : Var → Int) (p : P) : evalP env (neg p) = - evalP env p := by
+  rw [neg, eval_mkDict, termSum_map_neg]; simp only [evalP]; omega
+
+theorem eval_ofVar (env : Var → Int) (v : Var) : evalP env (ofVar v) = env v := by
+  rw [ofVar, eval_mkDict]; simp [termSum]
+
+/-- a polynomial without variables *is* its constant -/
+theorem estimate_sound (env : Var → Int) (p : P) (k : Int) (h : estimate p = some k) : evalP env p = k := by
+  unfold estimate at h
+  split at h
+  · rename_i he
+    have : p.coeffs = [] := by simpa using he
+    simp [evalP, this, termSum]; simpa using h
+  · cases h
+
+
+/-! ### normal form: each variable once, no zero coefficient, cancellation is exact -/
+
+def keys (d : List (Var × Int)) : List Var := d.map (·.1)
+
+/-- the total coefficient a list of pairs gives to a variable -/
+def coeffOf (v : Var) : List (Var × Int) → Int
+  | [] => 0
+  | (w, a) :: r => (if w = v then a else 0) + coeffOf v r
+
+theorem keys_bump (d : List (Var × Int)) (k : Var) (v : Int) :
+    keys (bump d k v) = if k ∈ keys d then keys d else keys d ++ [k] := by
+  induction d with
+  | nil => simp [bump, keys]
+  | cons hd tl ih =>
+    obtain ⟨k', v'⟩ := hd
+    unfold bump
+    by_cases h : k' = k
+    · subst h; simp [keys]
+    · have h' : ¬ k = k' := fun e => h e.symm
+      simp only [h, ↓reduceIte]
+      have : keys ((k', v') :: bump tl k v) = k' :: keys (bump tl k v) := rfl
+      rw [this, ih]
+      by_cases hm : k ∈ keys tl
+      · have : k ∈ keys ((k', v') :: tl) := by simp only [keys, List.map_cons, List.mem_cons]; exact Or.inr hm
+        rw [if_pos hm, if_pos this]; rfl
+      · have : k ∉ keys ((k', v') :: tl) := by
+          simp only [keys, List.map_cons, List.mem_cons, not_or]; exact ⟨h', hm⟩
+        rw [if_neg hm, if_neg this]; rfl
+
+theorem bump_nodup (d : List (Var × Int)) (k : Var) (v : Int) (h : (keys d).Nodup) : (keys (bump d k v)).Nodup := by
+  rw [keys_bump]
+  split
+  · exact h
+  · rename_i hm
+    rw [List.nodup_append]
+    refine ⟨h, by simp, ?_⟩
+    intro a ha b hb
+    simp at hb; subst hb
+    intro e; subst e; exact hm ha
+
+theorem foldl_bump_nodup (pairs d : List (Var × Int)) (h : (keys d).Nodup) :
+    (keys (pairs.foldl (fun d kv => bump d kv.1 kv.2) d)).Nodup := by
+  induction pairs generalizing d with
+  | nil => exact h
+  | cons hd tl ih => exact ih _ (bump_nodup d hd.1 hd.2 h)
+
+theorem keys_dropZero_sub (d : List (Var × Int)) : (keys (dropZero d)).Sublist (keys d) := by
+  unfold keys dropZero
+  exact (List.filter_sublist).map _
+
+/-- every variable occurs once among the coefficients -/
+theorem mk_nodup (pairs : List (Var × Int)) (c : Int) : (keys (mk pairs c).coeffs).Nodup :=
+  (foldl_bump_nodup pairs [] (by simp [keys])).sublist (keys_dropZero_sub _)
+
+/-- … and never with coefficient zero -/
+theorem mk_nonzero (pairs : List (Var × Int)) (c : Int) : ∀ kv ∈ (mk pairs c).coeffs, kv.2 ≠ 0 := by
+  intro kv h
+  simp [mk, dropZero] at h
+  exact h.2
+
+theorem coeffOf_append (v : Var) (a b : List (Var × Int)) : coeffOf v (a ++ b) = coeffOf v a + coeffOf v b := by
+  induction a with
+  | nil => simp [coeffOf]
+  | cons hd tl ih => obtain ⟨w, x⟩ := hd; simp [coeffOf, ih]; omega
+
+theorem coeffOf_bump (v : Var) (d : List (Var × Int)) (k : Var) (x : Int) :
+    coeffOf v (bump d k x) = coeffOf v d + (if k = v then x else 0) := by
+  induction d with
+  | nil => simp [bump, coeffOf]
+  | cons hd tl ih =>
+    obtain ⟨k', x'⟩ := hd
+    unfold bump
+    by_cases h : k' = k
+    · subst h; simp only [↓reduceIte, coeffOf]; split <;> omega
+    · simp only [h, ↓reduceIte, coeffOf, ih]; omega
+
+theorem coeffOf_build (v : Var) (pairs d : List (Var × Int)) :
+    coeffOf v (pairs.foldl (fun d kv => bump d kv.1 kv.2) d) = coeffOf v d + coeffOf v pairs := by
+  induction pairs generalizing d with
+  | nil => simp [coeffOf]
+  | cons hd tl ih => obtain ⟨k, x⟩ := hd; simp only [List.foldl_cons, ih, coeffOf_bump, coeffOf]; omega
+
+theorem coeffOf_dropZero (v : Var) (d : List (Var × Int)) : coeffOf v (dropZero d) = coeffOf v d := by
+  induction d with
+  | nil => rfl
+  | cons hd tl ih =>
+    obtain ⟨k, x⟩ := hd
+    by_cases h : x = 0
+    · subst h
+      have : dropZero ((k, 0) :: tl) = dropZero tl := by simp [dropZero]
+      rw [this, ih]; simp [coeffOf]
+    · have : dropZero ((k, x) :: tl) = (k, x) :: dropZero tl := by simp [dropZero, h]
+      rw [this]; simp [coeffOf, ih]
+
+theorem coeffOf_not_mem (v : Var) (d : List (Var × Int)) (h : v ∉ keys d) : coeffOf v d = 0 := by
+  induction d with
+  | nil => rfl
+  | cons hd tl ih =>
+    obtain ⟨k, x⟩ := hd
+    simp [keys] at h
+    have : ¬ k = v := fun e => h.1 e.symm
+    simp [coeffOf, this]
+    exact ih (by simpa [keys] using h.2)
+
+theorem coeffOf_mem_nodup (v : Var) (d : List (Var × Int)) (hn : (keys d).Nodup) (x : Int) (h : (v, x) ∈ d) :
+    coeffOf v d = x := by
+  induction d with
+  | nil => cases h
+  | cons hd tl ih =>
+    obtain ⟨k, y⟩ := hd
+    have hn' : k ∉ keys tl ∧ (keys tl).Nodup := by simpa [keys] using hn
+    rcases List.mem_cons.mp h with e | e
+    · cases e
+      simp [coeffOf, coeffOf_not_mem v tl hn'.1]
+    · have hk : v ∈ keys tl := by simp only [keys, List.mem_map]; exact ⟨(v, x), e, rfl⟩
+      have : ¬ k = v := fun e' => hn'.1 (e' ▸ hk)
+      simp [coeffOf, this, ih hn'.2 e]
+
+/-- the coefficient the normal form carries for a variable is the sum of everything the pairs
+said about it -/
+theorem mk_coeff (pairs : List (Var × Int)) (c : Int) (v : Var) :
+    coeffOf v (mk pairs c).coeffs = coeffOf v pairs := by
+  simp [mk, coeffOf_dropZero, build, coeffOf_build, coeffOf]
+
+/-- **cancellation is exact**: a variable disappears from the polynomial if and only if its
+coefficients sum to zero (`K + end − start`: the base drops out exactly when it cancels) -/
+theorem cancel_iff (pairs : List (Var × Int)) (c : Int) (v : Var) :
+    v ∉ keys (mk pairs c).coeffs ↔ coeffOf v pairs = 0 := by
+  constructor
+  · intro h; rw [← mk_coeff pairs c v]; exact coeffOf_not_mem v _ h
+  · intro h hm
+    simp only [keys, List.mem_map] at hm
+    obtain ⟨⟨w, x⟩, hx, rfl⟩ := hm
+    have h1 := coeffOf_mem_nodup w _ (mk_nodup pairs c) x hx
+    rw [mk_coeff, h] at h1
+    exact mk_nonzero pairs c _ hx h1.symm
+
+/-- a polynomial does not depend on a variable it does not mention -/
+theorem eval_indep (env env' : Var → Int) (p : P) (h : ∀ v ∈ keys p.coeffs, env v = env' v) :
+    evalP env p = evalP env' p := by
+  unfold evalP
+  congr 1
+  generalize p.coeffs = d at h
+  induction d with
+  | nil => rfl
+  | cons hd tl ih =>
+    obtain ⟨k, x⟩ := hd
+    simp only [termSum]
+    rw [h k (by simp [keys]), ih (fun v hv => h v (by simp [keys] at hv ⊢; exact Or.inr hv))]
+
+/-- **relocation at the level of the engine**: moving one variable (the link base) by `D` moves
+the value by (its coefficient) · `D` — nothing else in the polynomial reacts -/
+theorem eval_shift (env : Var → Int) (v : Var) (D : Int) (p : P) :
+    evalP (fun w => if w = v then env w + D else env w) p = evalP env p + coeffOf v p.coeffs * D := by
+  unfold evalP
+  generalize p.coeffs = d
+  induction d with
+  | nil => simp [termSum, coeffOf]
+  | cons hd tl ih =>
+    obtain ⟨k, x⟩ := hd
+    have ih' : termSum (fun w => if w = v then env w + D else env w) tl = termSum env tl + coeffOf v tl * D := by omega
+    simp only [termSum, coeffOf, ih']
+    by_cases h : k = v
+    · subst h; simp only [↓reduceIte, Int.mul_add, Int.add_mul]; omega
+    · simp only [h, ↓reduceIte, Int.add_mul, Int.zero_mul]; omega
+
+/-! ### substituting what is known, and the value `wait()` arrives at -/
+
+/-- an assignment agrees with what the variables are said to stand for -/
+def ConsistentR (env : Var → Int) (r : Var → Option Est) : Prop :=
+  ∀ v e, r v = some e →
+    match e with
+    | .int k => env v = k
+    | .var w => env v = env w
+    | .poly q => env v = evalP env q
+
+abbrev Consistent (env : Var → Int) (σ : Known) : Prop := ConsistentR env (look σ)
+
+theorem consistent_look2 (env : Var → Int) (σ : Known) (hc : Consistent env σ) : ConsistentR env (look2 σ) := by
+  intro v e h
+  unfold look2 at h
+  cases hl : look σ v with
+  | none => rw [hl] at h; cases h
+  | some e1 =>
+    rw [hl] at h
+    have h1 := hc v e1 hl
+    cases e1 with
+    | int k => simp only at h; cases h; exact h1
+    | poly q => simp only at h; cases h; exact h1
+    | var w =>
+      simp only at h h1
+      cases hw : look σ w with
+      | none => rw [hw] at h; simp only at h; cases h; exact h1
+      | some e2 =>
+        rw [hw] at h; simp only at h; cases h
+        have h2 := hc w e hw
+        cases e with
+        | int k => simp only at h2 ⊢; omega
+        | var w2 => simp only at h2 ⊢; omega
+        | poly q => simp only at h2 ⊢; omega
+
+theorem substStep_sound (env : Var → Int) (r : Var → Option Est) (hc : ConsistentR env r) (acc : List (Var × Int) × Int) (kv : Var × Int) :
+    termSum env (substStep r acc kv).1 + (substStep r acc kv).2 = termSum env acc.1 + acc.2 + kv.2 * env kv.1 := by
+  unfold substStep
+  cases hl : r kv.1 with
+  | none => simp [termSum_append, termSum]; omega
+  | some e =>
+    have := hc kv.1 e hl
+    cases e with
+    | int k => simp only at this ⊢; rw [this, Int.mul_comm]; omega
+    | var w => simp only at this ⊢; rw [this]; simp [termSum_append, termSum]; omega
+    | poly q =>
+      simp only at this ⊢
+      rw [this, termSum_append, termSum_map_mul]
+      simp only [evalP, Int.mul_add, Int.add_mul]
+      rw [Int.mul_comm kv.2 (termSum env q.coeffs), Int.mul_comm kv.2 q.const]; omega
+
+theorem foldl_substStep_sound (env : Var → Int) (r : Var → Option Est) (hc : ConsistentR env r) (d : List (Var × Int)) (acc : List (Var × Int) × Int) :
+    termSum env (d.foldl (substStep r) acc).1 + (d.foldl (substStep r) acc).2 = termSum env acc.1 + acc.2 + termSum env d := by
+  induction d generalizing acc with
+  | nil => simp [termSum]
+  | cons hd tl ih =>
+    obtain ⟨k, x⟩ := hd
+    simp only [List.foldl_cons]
+    rw [ih, substStep_sound env r hc]; simp [termSum]; omega
+
+theorem eval_substWith (env : Var → Int) (r : Var → Option Est) (hc : ConsistentR env r) (p : P) :
+    evalP env (substWith r p) = evalP env p := by
+  unfold substWith
+  simp only [eval_mk]
+  have := foldl_substStep_sound env r hc p.coeffs ([], p.const)
+  simp only [termSum] at this
+  unfold evalP; omega
+
+/-- `_substitute_known` keeps the meaning under every assignment that agrees with what is known -/
+theorem eval_substKnown (env : Var → Int) (σ : Known) (hc : Consistent env σ) (p : P) :
+    evalP env (substKnown σ p) = evalP env p := eval_substWith env _ hc p
+
+/-- … and so does the whole body of `_wait` -/
+theorem eval_waitRound (env : Var → Int) (σ : Known) (hc : Consistent env σ) (p : P) :
+    evalP env (waitRound σ p) = evalP env p := by
+  unfold waitRound
+  rw [eval_substKnown env σ hc, eval_substWith env _ (consistent_look2 env σ hc), eval_substKnown env σ hc]
+
+/-- **the value `wait()` returns is the arithmetic value**: whatever number the engine arrives
+at for a polynomial is its value under every assignment consistent with the definitions -/
+theorem waitP_sound (env : Var → Int) (σ : Known) (hc : Consistent env σ) (f : Nat) (p : P) (k : Int)
+    (h : waitP σ f p = .value k) : evalP env p = k := by
+  induction f generalizing p with
+  | zero => simp [waitP] at h
+  | succ f ih =>
+    simp only [waitP] at h
+    split at h
+    · rename_i he
+      have hz : (waitRound σ p).coeffs = [] := by simpa using he
+      have := eval_waitRound env σ hc p
+      rw [← this]; simp only [evalP, hz, termSum]; simp at h; omega
+    · split at h
+      · cases h
+      · rw [← eval_waitRound env σ hc p, ← eval_substKnown env σ hc (waitRound σ p)]; exact ih _ h
+
+/-- two runs of the engine that know different things (definitions met in a different order,
+a different moment of the same run) can never arrive at different numbers -/
+theorem waitP_deterministic (env : Var → Int) (σ₁ σ₂ : Known) (h1 : Consistent env σ₁) (h2 : Consistent env σ₂)
+    (f₁ f₂ : Nat) (p : P) (k₁ k₂ : Int) (e1 : waitP σ₁ f₁ p = .value k₁) (e2 : waitP σ₂ f₂ p = .value k₂) : k₁ = k₂ := by
+  rw [← waitP_sound env σ₁ h1 f₁ p k₁ e1, ← waitP_sound env σ₂ h2 f₂ p k₂ e2]
+
+/-! non-vacuity: `1000 + end − start` with `start = base + 0`, `end = base + 6` (variable 0 is
+the base, 1 and 2 are the labels) -/
+example : waitP [(1, .poly ⟨[(0, 1)], 0⟩), (2, .poly ⟨[(0, 1)], 6⟩)] 5
+    (add (addConst (ofVar 2) 0o1000) (neg (ofVar 1))) = .value 0o1006 := by decide
+example : waitP [(1, .poly ⟨[(0, 1)], 0⟩), (2, .poly ⟨[(0, 1)], 6⟩)] 5
+    (addConst (ofVar 2) 0o1000) = .notReady := by decide
+example : Consistent (fun v => if v = 0 then 512 else if v = 1 then 512 else 518) [(1, .poly ⟨[(0, 1)], 0⟩), (2, .poly ⟨[(0, 1)], 6⟩)] := by
+  intro v e h
+  simp only [look, List.find?] at h
+  by_cases h1 : v = 1
+  · subst h1; simp at h; subst h; simp [evalP, termSum]
+  · by_cases h2 : v = 2
+    · subst h2; simp at h; subst h; simp [evalP, termSum]
+    · have e1 : (1 == v) = false := by simp; exact fun e => h1 e.symm
+      have e2 : (2 == v) = false := by simp; exact fun e => h2 e.symm
+      simp [e1, e2] at h
+example : (mk [(0, 1), (3, 2), (0, -1)] 7).coeffs = [(3, 2)] := by decide
+
+end Pdpy11.Props.C12.LinPoly
